@@ -25,7 +25,7 @@ def linspace (start stop : Rat) (n : Nat) : List Rat :=
   else (List.range n).map (fun (i : Nat) => start + ((i : Int) : Rat) * ((stop - start) / (((n - 1 : Nat) : Int) : Rat)))
 
 /-- number of steps of `makeLinearlyVaryingSequence` -/
-def linCount (start stop step : Rat) : Int := rhe (Gen.linCountArg start stop step) + 1
+def linCount (start stop step : Rat) : Int := Gen.linCount start stop step
 
 /-- `makeLinearlyVaryingSequence(baseelement, channel, name, arg, start, stop, step)` -/
 def makeLinearlyVaryingSequence (base : Element) (ch : Chan) (name : String) (arg : Val)
